@@ -3,7 +3,7 @@
    pyxel/util/misc.py (get_dtype) and from the three detector-level converter models on every run. *)
 From Coq Require Import ZArith List Bool Reals Lia.
 From Flocq Require Import Core BinarySingleNaN.
-From PyxelV Require Import Lib.B64 Model.Adc Proofs.AdcChain Proofs.AdcFloat Proofs.AdcRange Proofs.AdcSimple Proofs.AdcSar Proofs.AdcSar0 Proofs.AdcFrame Proofs.AdcWrap Proofs.AdcWitness.
+From PyxelV Require Import Lib.B64 Model.Adc Proofs.AdcChain Proofs.AdcFloat Proofs.AdcRange Proofs.AdcSimple Proofs.AdcSar Proofs.AdcSar0 Proofs.AdcSarp Proofs.AdcFrame Proofs.AdcWrap Proofs.AdcWitness.
 From PyxelGen Require Import Gen_C16.
 Import ListNotations.
 Open Scope Z_scope.
@@ -166,6 +166,29 @@ Theorem C16_sar_noise0 :
 Proof. exact sar0_eq_sar. Qed.
 Print Assumptions C16_sar_noise0.
 
+(* ---- the noisy variant in general: WHATEVER perturbation of the reference voltage is drawn for each
+   bit (any doubles, NaN and infinities included — the random draws are universally quantified), every
+   code lies in 0 .. 2^bits - 1, the unsigned accumulator never wraps, and the image is defined with the
+   type get_dtype chooses; with all perturbations +0.0 it is the noise-free converter *)
+Theorem C16_noisy_range :
+  forall (w bits : Z) (vmax : b64) (ps : list b64) (x : b64) (c : Z),
+  1 <= bits -> sarp_code w bits vmax ps x = Some c -> 0 <= c <= 2 ^ bits - 1.
+Proof. exact sarp_range. Qed.
+Print Assumptions C16_noisy_range.
+
+Theorem C16_noisy_frame_meets_spec :
+  forall (bits : Z) (vmax : b64) (ps xs : list b64), 1 <= bits <= 64 -> bits <= Z.of_nat (length ps) ->
+  exists w cs, sarp_frame src_dtype_chain bits vmax ps xs = Some (w, map Some cs) /\ noisy_spec bits xs w cs = true.
+Proof. apply sarp_frame_meets_spec. vm_compute. reflexivity. Qed.
+Print Assumptions C16_noisy_frame_meets_spec.
+
+Theorem C16_noisy_zero_is_noise_free :
+  forall (w bits : Z) (vmax x : b64),
+  is_finite vmax = true -> (0 <= B2R vmax)%R ->
+  sarp_code w bits vmax (repeat pzero (Z.to_nat bits)) x = sar_code w bits vmax x.
+Proof. exact sarp_zero_eq_sar. Qed.
+Print Assumptions C16_noisy_zero_is_noise_free.
+
 (* ================================================================ the detector-level models
    simple_adc / sar_adc / sar_adc_with_noise as wired in the source (Gen_C16.src_*_wiring, regenerated
    on every run): each reads adc_bit_resolution and adc_voltage_range (minimum first) of the detector it
@@ -186,11 +209,14 @@ Theorem C16_detector_image :
   run_sar src_dtype_chain src_sar_wiring d = sar_frame src_dtype_chain (d_bits d) (d_hi d) (d_signal d) /\
   run_sar0 src_dtype_chain src_sar0_wiring d (d_bits d) (d_bits d)
     = sar0_frame src_dtype_chain (d_bits d) (d_hi d) (d_signal d) /\
-  (forall n m, (n <> d_bits d \/ m <> d_bits d) -> run_sar0 src_dtype_chain src_sar0_wiring d n m = None).
+  (forall n m, (n <> d_bits d \/ m <> d_bits d) -> run_sar0 src_dtype_chain src_sar0_wiring d n m = None) /\
+  (forall ps, run_sarp src_dtype_chain src_sar0_wiring d ps
+              = sarp_frame src_dtype_chain (d_bits d) (d_hi d) ps (d_signal d)).
 Proof.
   intros d. destruct C16_wrappers_wired as [A [B C]].
   split; [apply run_simple_ok; exact A|]. split; [apply run_sar_ok; exact B|].
-  apply run_sar0_ok. exact C.
+  destruct (run_sar0_ok src_dtype_chain _ d C) as [H1 H2].
+  split; [exact H1|]. split; [exact H2|]. intros ps. apply run_sarp_ok. exact C.
 Qed.
 Print Assumptions C16_detector_image.
 
@@ -247,6 +273,13 @@ Proof.
   pose proof high_bits_repaired as [C [D E]]. pose proof wrap_repaired as [F [G _]].
   pose proof overflow_clamped as [_ H]. repeat split; assumption.
 Qed.
+
+(* the noisy variant with non-zero perturbations differs from the noise-free converter and stays in range *)
+Example C16_noisy_example :
+  sarp_code 8 8 (bofZ 8) [bofZ 1; pzero; pzero; pzero; pzero; pzero; pzero; pzero] (bofZ 4) = Some 102 /\
+  sar_code 8 8 (bofZ 8) (bofZ 4) = Some 128 /\
+  sarp_code 8 8 (bofZ 8) [pinf; bnan; ninf; pzero; pzero; pzero; pzero; pzero] (bofZ 4) = Some 0.
+Proof. vm_compute. repeat split; reflexivity. Qed.
 
 (* the SAR converters at the resolutions that used to fail (C16-F8d, repaired) *)
 Example C16_sar_full_scale_high_bits :
